@@ -1,7 +1,7 @@
 #!/bin/bash
-# seedtest.sh <seed dir with patch.diff, demo_test.go, notes.md> <demo dest dir relative to repo root> <go test -run regex> [PIDs...]
+# seedtest.sh <seed dir with patch.diff, demo_test.go> <demo dest dir relative to repo root> <go test -run regex> [PIDs...]
 # 1. confirms in a scratch worktree (branch seedbase) that the suite passes with the patch and the demo fails with / passes without it
-# 2. applies the patch to /repo, runs the given checks, reverts.
+# 2. applies the patch to a scratch copy of /repo's working tree (with the contract files) and runs the given checks on it.
 set -u
 export GOFLAGS=-mod=mod GOPROXY=off GOSUMDB=off GOTOOLCHAIN=local
 SEED=$1; DEST=$2; RUN=$3; shift 3
@@ -9,18 +9,19 @@ W=$(mktemp -d /tmp/seedchk.XXXXXX); rmdir $W
 git -C /repo worktree add -q --detach $W seedbase || exit 3
 PKG=./$DEST
 cp $SEED/demo_test.go $W/$DEST/zz_demo_test.go
-(cd $W && go test -vet=off -count=1 -run "$RUN" $PKG >/tmp/seed_nopatch.log 2>&1); R0=$?
-(cd $W && git apply $SEED/patch.diff) || { echo "PATCH DOES NOT APPLY"; git -C /repo worktree remove --force $W; exit 3; }
-(cd $W && go test -vet=off -count=1 -run "$RUN" $PKG >/tmp/seed_patch.log 2>&1); R1=$?
+(cd $W && timeout 300 go test -vet=off -count=1 -run "$RUN" $PKG >$W.nopatch.log 2>&1); R0=$?
+(cd $W && git apply $SEED/patch.diff) || { echo "PATCH DOES NOT APPLY to seedbase"; git -C /repo worktree remove --force $W; exit 3; }
+(cd $W && timeout 300 go test -vet=off -count=1 -run "$RUN" $PKG >$W.patch.log 2>&1); R1=$?
 rm $W/$DEST/zz_demo_test.go
-(cd $W && go build ./... && go test -vet=off -count=1 ./... >/tmp/seed_suite.log 2>&1); R2=$?
+(cd $W && go build ./... && timeout 600 go test -vet=off -count=1 ./... >$W.suite.log 2>&1); R2=$?
 echo "demo without patch: exit $R0 (want 0); demo with patch: exit $R1 (want !=0); suite with patch: exit $R2 (want 0)"
-git -C /repo worktree remove --force $W
-# run the checks on /repo with the patch
+git -C /repo worktree remove --force $W; rm -f $W.*.log
 if [ $# -gt 0 ]; then
-  git -C /repo apply $SEED/patch.diff || { echo "PATCH DOES NOT APPLY TO /repo"; exit 3; }
+  S=$(mktemp -d /tmp/seedrepo.XXXXXX)
+  rsync -a --exclude .git /repo/ $S/
+  (cd $S && patch -p1 -s --no-backup-if-mismatch < $SEED/patch.diff) || { echo "PATCH DOES NOT APPLY TO /repo copy"; rm -rf $S; exit 3; }
   for P in "$@"; do
-    /verif/check $P 2>&1 | grep -E "^VIOLATION|^KNOWN|^$P:|^govc" | cut -c1-220
+    timeout 1200 python3-vt /verif/engine/check.py $P --repo $S 2>&1 | grep -E "^VIOLATION|^KNOWN|^$P:|^govc" | sed "s#$S#REPO#g" | cut -c1-200 | head -12
   done
-  git -C /repo checkout -- .
+  rm -rf $S
 fi
